@@ -57,6 +57,11 @@ SELECTED = [
     ("Version.base_version", "packaging.version", "Version.base_version"),
     ("Version.is_prerelease", "packaging.version", "Version.is_prerelease"),
     ("_TrimmedRelease.release", "packaging.version", "_TrimmedRelease.release"),
+    ("_py_interpreter_range", "packaging.tags", "_py_interpreter_range"),
+    ("_abi3_applies", "packaging.tags", "_abi3_applies"),
+    ("_is_threaded_cpython", "packaging.tags", "_is_threaded_cpython"),
+    ("compatible_tags", "packaging.tags", "compatible_tags"),
+    ("cpython_tags", "packaging.tags", "cpython_tags"),
 ]
 
 # classes whose instances the translated code handles as records `PyVal.obj <class name> <fields>`; attribute access on
@@ -65,7 +70,7 @@ SELECTED = [
 # subclass overrides the attribute
 TRACKED = [
     ("packaging.version", "_Version"), ("packaging.version", "_BaseVersion"), ("packaging.version", "Version"),
-    ("packaging.version", "_TrimmedRelease"),
+    ("packaging.version", "_TrimmedRelease"), ("packaging.tags", "Tag"),
 ]
 
 LEAN_KEYWORDS = {
@@ -129,10 +134,21 @@ METHODS = {
     "lower": ("PyRt.str_lower", 0), "upper": ("PyRt.str_upper", 0), "isdigit": ("PyRt.str_isdigit", 0),
     "startswith": ("PyRt.str_startswith", 1), "endswith": ("PyRt.str_endswith", 1), "join": ("PyRt.str_join", 1),
     "split": ("PyRt.str_split", 1), "strip": ("PyRt.str_strip", 0), "rpartition": ("PyRt.str_rpartition", 1),
-    "partition": ("PyRt.str_partition", 1), "replace": ("PyRt.str_replace", 2),
+    "partition": ("PyRt.str_partition", 1), "replace": ("PyRt.str_replace", 2), "group": ("PyRt.match_group", 1),
 }
-MUTATORS = {"append": ("PyRt.list_append", 1), "extend": ("PyRt.list_extend", 1), "insert": ("PyRt.list_insert", 2)}
-OTHER_MUTATORS = {"pop", "sort", "reverse", "remove", "clear", "add", "update", "discard", "setdefault"}
+MUTATORS = {"append": ("PyRt.list_append", 1), "extend": ("PyRt.list_extend", 1), "insert": ("PyRt.list_insert", 2),
+            "remove": ("PyRt.list_remove", 1)}
+OTHER_MUTATORS = {"pop", "sort", "reverse", "clear", "add", "update", "discard", "setdefault"}
+# regular-expression literals the run-time has a hand-written matcher for (PyRt.re_match); any other pattern text
+# makes the function unsupported
+SUPPORTED_PATTERNS = {r"cp\d+(.*)"}
+# reads of the world outside the selected functions: source form -> key in the environment table `PyRt.Env`
+# (the generated function then takes `env` as its first parameter)
+EXTERNAL_READS = {"sys.version_info", "sys.maxunicode", "EXTENSION_SUFFIXES"}
+EXTERNAL_CALLS = {"platform_tags", "sysconfig.get_config_var"}
+EXTERNAL_HASATTR = {("sys", "gettotalrefcount")}
+DROPPED_CALLS = {"logger.debug", "logger.info", "logger.warning"}          # logging: no effect on the result
+SCALAR_RETURNS = {"bool", "str", "int", "None"}
 # itertools.<name> -> run-time function taking (Lean function, PyVal)
 ITERTOOLS_FN = {"takewhile": "PyRt.takewhile", "dropwhile": "PyRt.dropwhile"}
 # contexts in which a mutated (owned) list may be read without creating an alias: builtin consumers
@@ -246,8 +262,33 @@ class Fn:
             if isinstance(n, (ast.Global, ast.Nonlocal, ast.While, ast.With, ast.AsyncFor, ast.AsyncWith, ast.Delete,
                               ast.ClassDef, ast.FunctionDef, ast.AsyncFunctionDef, ast.Match, ast.Import, ast.ImportFrom)):
                 raise Unsupported(f"statement {type(n).__name__}")
-        self.locals = set(assigned) | set(params)
+        # loop variables that are read after their loop (Python leaks them) or assigned elsewhere become ordinary locals
+        self.leaking = set()
+        covered = {}                     # loop variable -> ids of the nodes inside some construct that binds it
+        for n in _walk_scope(body, into_exprs=True):
+            names = []
+            if isinstance(n, ast.For):
+                names = [t.id for t in ast.walk(n.target) if isinstance(t, ast.Name)]
+            elif isinstance(n, (ast.ListComp, ast.GeneratorExp, ast.SetComp, ast.DictComp)):
+                names = [t.id for g in n.generators for t in ast.walk(g.target) if isinstance(t, ast.Name)]
+            elif isinstance(n, ast.Lambda):
+                names = [a.arg for a in n.args.args]
+            for v in names:
+                covered.setdefault(v, set()).update(id(x) for x in ast.walk(n))
+        loopvars = {t.id for n in _walk_scope(body) if isinstance(n, ast.For) for t in ast.walk(n.target) if isinstance(t, ast.Name)}
+        for m in _walk_scope(body, into_exprs=True):
+            if isinstance(m, ast.Name) and m.id in loopvars and id(m) not in covered.get(m.id, ()):
+                self.leaking.add(m.id)
+        for v in self.leaking:
+            if v not in assigned:
+                assigned.append(v)
+        loop_names = {t.id for n in _walk_scope(body) if isinstance(n, ast.For) for t in ast.walk(n.target) if isinstance(t, ast.Name)}
+        self.locals = set(assigned) | set(params) | loop_names
         self.param_assigned = [p for p in params if p in assigned]
+        self.is_init = self.owner is not None and self.node.name == "__init__"
+        if self.is_init and params:
+            if params[0] not in self.param_assigned:
+                self.param_assigned.append(params[0])
         # mutated names
         self.mutated = set()
         for n in _walk_scope(body):
@@ -260,12 +301,12 @@ class Fn:
             if isinstance(n, (ast.Assign, ast.AugAssign, ast.AnnAssign)):
                 ts = n.targets if isinstance(n, ast.Assign) else [n.target]
                 for t in ts:
+                    if self.is_init and isinstance(n, ast.Assign) and isinstance(t, ast.Attribute) \
+                            and isinstance(t.value, ast.Name) and t.value.id == params[0]:
+                        continue                         # self.x = e inside __init__
                     for sub in ast.walk(t):
                         if isinstance(sub, (ast.Subscript, ast.Attribute)) and isinstance(sub.ctx, ast.Store):
                             raise Unsupported("assignment to a subscript or attribute")
-        for m in self.mutated:
-            if m in params:
-                raise Unsupported(f"parameter {m} is mutated in place")
         self._check_ownership(body)
         # hoisting: locals whose first assignment is not a top-level statement of the body
         top_first = set()
@@ -285,6 +326,20 @@ class Fn:
     def _check_ownership(self, body):
         if not self.mutated:
             return
+        # a name may hold shared values (parameter, results of calls) *before* the last top-level `m = <fresh list>`
+        # that precedes every in-place mutation of m; from there on it must be owned
+        self.owned_from = {}
+        for m in self.mutated:
+            muts = [n.lineno for n in _walk_scope(body)
+                    if isinstance(n, ast.Expr) and isinstance(n.value, ast.Call) and isinstance(n.value.func, ast.Attribute)
+                    and isinstance(n.value.func.value, ast.Name) and n.value.func.value.id == m and n.value.func.attr in MUTATORS]
+            first = min(muts)
+            fresh = [st for st in body if isinstance(st, ast.Assign) and len(st.targets) == 1
+                     and isinstance(st.targets[0], ast.Name) and st.targets[0].id == m and _is_fresh_list(st.value)
+                     and st.lineno < first]
+            self.owned_from[m] = fresh[-1].lineno if fresh else 0
+            if m in self.params() and not fresh:
+                raise Unsupported(f"parameter {m} is mutated in place")
         for n in _walk_scope(body):
             if isinstance(n, (ast.Assign, ast.AnnAssign, ast.AugAssign)):
                 if isinstance(n, ast.AugAssign):
@@ -303,7 +358,8 @@ class Fn:
                         if any(isinstance(e, ast.Name) and e.id in self.mutated for e in t.elts):
                             raise Unsupported("a list that is mutated in place is bound by unpacking")
                     for tt, vv in pairs:
-                        if isinstance(tt, ast.Name) and tt.id in self.mutated and vv is not None and not _is_fresh_list(vv):
+                        if isinstance(tt, ast.Name) and tt.id in self.mutated and vv is not None and not _is_fresh_list(vv) \
+                                and n.lineno >= self.owned_from[tt.id]:
                             raise Unsupported(f"{tt.id} is mutated in place but bound to a value that may be shared")
             if isinstance(n, ast.For):
                 for sub in ast.walk(n.target):
@@ -318,7 +374,11 @@ class Fn:
             if isinstance(n, ast.Name) and isinstance(n.ctx, ast.Load) and n.id in self.mutated:
                 p = parents.get(n)
                 ok = False
-                if isinstance(p, ast.Attribute) and p.value is n:
+                if n.lineno <= self.owned_from[n.id]:
+                    ok = True                                    # still the shared value
+                elif isinstance(p, ast.Call) and isinstance(p.func, ast.Name) and n in p.args and self._scalar_callee(p.func.id):
+                    ok = True                                    # a selected function that returns a scalar
+                elif isinstance(p, ast.Attribute) and p.value is n:
                     ok = True                                    # receiver of a method / attribute
                 elif isinstance(p, ast.Subscript) and p.value is n:
                     ok = True
@@ -339,8 +399,24 @@ class Fn:
                 if not ok:
                     raise Unsupported(f"{n.id} is mutated in place and used where an alias could be created")
 
+    def _scalar_callee(self, name):
+        """a module-level function of packaging whose return annotation is bool/str/int/None: it cannot hand back an
+        alias of a list argument (and, being translated under the same rules, does not mutate it)"""
+        f = self.globals.get(name)
+        if not inspect.isfunction(f) or not (f.__module__ or "").startswith("packaging"):
+            return False
+        try:
+            node = ast.parse(textwrap.dedent(inspect.getsource(f))).body[0]
+        except (OSError, SyntaxError):
+            return False
+        r = node.returns
+        return isinstance(r, ast.Name) and r.id in SCALAR_RETURNS or (isinstance(r, ast.Constant) and r.value is None)
+
     def _check_definite(self, body):
+        """definite-assignment analysis: `self.maybe_unbound` = the Name loads that can see an unassigned local
+        (they are read through `PyRt.bound`, which raises UnboundLocalError like CPython)"""
         params = set(self.params())
+        self.maybe_unbound = set()
 
         def expr_loads(e, defined, bound=frozenset()):
             """all local Loads in expression e are defined (comprehension / lambda targets are bound inside)"""
@@ -362,7 +438,7 @@ class Fn:
                 return
             if isinstance(e, ast.Name):
                 if isinstance(e.ctx, ast.Load) and e.id in self.locals and e.id not in defined and e.id not in bound:
-                    raise Unsupported(f"local {e.id} may be used before it is assigned")
+                    self.maybe_unbound.add(id(e))
                 return
             for c in ast.iter_child_nodes(e):
                 expr_loads(c, defined, bound)
@@ -383,6 +459,9 @@ class Fn:
                     return None
                 if isinstance(st, ast.Assign):
                     expr_loads(st.value, d)
+                    for t in st.targets:
+                        if isinstance(t, ast.Attribute):
+                            expr_loads(t.value, d)
                     d |= set(_targets_of(st))
                 elif isinstance(st, ast.AnnAssign):
                     if st.value is not None:
@@ -391,7 +470,7 @@ class Fn:
                 elif isinstance(st, ast.AugAssign):
                     expr_loads(st.value, d)
                     if isinstance(st.target, ast.Name) and st.target.id not in d:
-                        raise Unsupported(f"local {st.target.id} may be used before it is assigned")
+                        raise Unsupported(f"augmented assignment to {st.target.id}, which may be unassigned")
                 elif isinstance(st, ast.If):
                     expr_loads(st.test, d)
                     a = block(st.body, d)
@@ -437,12 +516,12 @@ class Fn:
         self.analyse()
         params = self.params()
         sig = " ".join(lname(p) for p in params)
-        head = f"def {self.lean_name}" + (f" ({sig} : PyVal)" if params else "") + " : M PyVal := do"
-        self.emit(0, head)
+        self.head_index = len(self.lines)
+        self.emit(0, "")                       # the header is written last: whether `env` is needed is known then
         for p in self.param_assigned:
             self.emit(1, f"let mut {lname(p)} := {lname(p)}")
         for v in self.hoisted:
-            self.emit(1, f"let mut {lname(v)} : PyVal := PyVal.none")
+            self.emit(1, f"let mut {lname(v)} : PyVal := PyVal.unbound")
         if self.is_gen:
             self.emit(1, "let mut __yield : List PyVal := []")
         body = list(self.node.body)
@@ -450,8 +529,21 @@ class Fn:
             body = body[1:]
         self.block(body, 1)
         if _falls_through(body):
-            self.emit(1, "return " + ("PyVal.iter __yield" if self.is_gen else "PyVal.none"))
+            self.emit(1, "return " + self.default_return())
+        env = "(env : PyRt.Env) " if self.lean_name in self.ctx.uses_env else ""
+        self.lines[self.head_index] = f"def {self.lean_name} {env}" + (f"({sig} : PyVal) " if params else "") + ": M PyVal := do"
         return "\n".join(self.lines)
+
+    def default_return(self):
+        if self.is_gen:
+            return "PyVal.iter __yield"
+        if self.is_init:
+            return lname(self.params()[0])          # convention: `__init__` hands back the initialised object
+        return "PyVal.none"
+
+    def use_env(self):
+        self.ctx.uses_env.add(self.lean_name)
+        return "env"
 
     def block(self, stmts, ind):
         if not stmts:
@@ -473,9 +565,13 @@ class Fn:
             self.emit(ind, "pure ()")
         elif isinstance(st, ast.Return):
             if self.is_gen:
-                if st.value is not None:
-                    raise Unsupported("return with a value inside a generator")
+                if st.value is not None:          # the generator's return value is dropped by every consumer; evaluate it
+                    self.emit(ind, f"let _ := {self.val(st.value)}")
                 self.emit(ind, "return PyVal.iter __yield")
+            elif self.is_init:
+                if st.value is not None and not (isinstance(st.value, ast.Constant) and st.value.value is None):
+                    raise Unsupported("__init__ returning a value")
+                self.emit(ind, "return " + self.default_return())
             elif st.value is None:
                 self.emit(ind, "return PyVal.none")
             else:
@@ -500,8 +596,20 @@ class Fn:
             self.emit(ind, f"{lname(st.target.id)} ← {op} {lname(st.target.id)} {self.val(st.value)}")
         elif isinstance(st, ast.Assign):
             if len(st.targets) != 1:
-                raise Unsupported("chained assignment")
-            self.assign(st.targets[0], st.value, ind)
+                if not all(isinstance(t, ast.Name) for t in st.targets):
+                    raise Unsupported("chained assignment to other than names")
+                t0 = self.fresh()
+                p, c = self.expr(st.value)
+                self.emit(ind, f"let {t0} := {c}" if p else f"let {t0} ← {c}")
+                for t in st.targets:
+                    self.assign_name(t.id, True, t0, ind)
+                return
+            t = st.targets[0]
+            if self.is_init and isinstance(t, ast.Attribute) and isinstance(t.value, ast.Name) and t.value.id == self.params()[0]:
+                me = lname(t.value.id)
+                self.emit(ind, f'{me} ← PyRt.setattr {me} "{t.attr}" {self.val(st.value)}')
+                return
+            self.assign(t, st.value, ind)
         elif isinstance(st, ast.If):
             self.emit(ind, f"if {self.cond(st.test)} then")
             self.block(st.body, ind + 1)
@@ -513,8 +621,7 @@ class Fn:
             body_assigned = {n for s in _walk_scope(st.body) for n in _targets_of(s)}
             if isinstance(st.target, ast.Name):
                 tv = st.target.id
-                self._check_loop_var_not_used_after(tv, st)
-                if tv in body_assigned or tv in self.declared:
+                if tv in body_assigned or tv in self.declared or tv in self.leaking:
                     t = self.fresh("x")
                     self.emit(ind, f"for {t} in (← PyRt.iterate {src}) do")
                     if tv in self.declared:
@@ -526,9 +633,8 @@ class Fn:
             elif isinstance(st.target, ast.Tuple) and all(isinstance(e, ast.Name) for e in st.target.elts):
                 names = [e.id for e in st.target.elts]
                 for tv in names:
-                    self._check_loop_var_not_used_after(tv, st)
-                    if tv in body_assigned or tv in self.declared:
-                        raise Unsupported("loop variable of a tuple target is reassigned")
+                    if tv in body_assigned or tv in self.declared or tv in self.leaking:
+                        raise Unsupported("loop variable of a tuple target is reassigned or used after the loop")
                 t = self.fresh("x")
                 self.emit(ind, f"for {t} in (← PyRt.iterate {src}) do")
                 self.emit(ind + 1, self.unpack_line(names, t))
@@ -633,6 +739,13 @@ class Fn:
             return
         if isinstance(e, ast.YieldFrom):
             self.emit(ind, f"__yield := __yield ++ (← PyRt.iterate {self.val(e.value)})")
+            return
+        if isinstance(e, ast.Call) and ".".join(_dotted(e.func) or []) in DROPPED_CALLS:
+            for a in e.args:                     # the arguments are still evaluated (they could raise)
+                p, c = self.expr(a)
+                if not p:
+                    self.emit(ind, f"let _ ← {c}")
+            self.emit(ind, "pure ()")
             return
         if isinstance(e, ast.Call) and isinstance(e.func, ast.Attribute) and isinstance(e.func.value, ast.Name) \
                 and e.func.attr in MUTATORS and e.func.value.id in self.mutated:
@@ -782,8 +895,14 @@ class Fn:
 
     def name(self, e):
         n = e.id
-        if n in self.locals or n in self.bound_stack():
+        if n in self.bound_stack():
             return True, lname(n)
+        if n in self.locals:
+            if id(e) in self.maybe_unbound:
+                return False, f"PyRt.bound {lname(n)}"
+            return True, lname(n)
+        if n in EXTERNAL_READS and n in self.globals:
+            return False, f'PyRt.env_get {self.use_env()} "{n}"'
         g = self.resolve_global(n)
         kind = g[0]
         if kind == "const":
@@ -960,9 +1079,16 @@ class Fn:
             g = self.resolve_global(a.id)
             if g[0] == "selected":
                 self.ctx.need(g[2])
+                if g[1] in self.ctx.uses_env:
+                    return f"({g[1]} {self.use_env()})"
                 return g[1]
             if g[0] == "builtin" and a.id in BUILTINS and BUILTINS[a.id][1] == 1:
                 return BUILTINS[a.id][0]
+            if g[0] == "function" and (g[1].__module__ or "").startswith("packaging"):
+                name = self.ctx.require(g[1])
+                if name in self.ctx.uses_env:
+                    return f"({name} {self.use_env()})"
+                return name
         raise Unsupported("function argument that is neither a lambda nor a selected function")
 
     def attribute(self, e):
@@ -983,6 +1109,10 @@ class Fn:
                                        f"else {self.ctx.require(obj.fget)} {lname(selfname)})")
                     raise Unsupported(f"super().{e.attr} is not a property")
             raise Unsupported(f"super().{e.attr} not found")
+        dotted = _dotted(e)
+        if dotted and dotted[0] not in self.locals and dotted[0] not in self.bound_stack() and ".".join(dotted) in EXTERNAL_READS \
+                and inspect.ismodule(self.globals.get(dotted[0])):
+            return False, f'PyRt.env_get {self.use_env()} "{".".join(dotted)}"'
         c = self.static_class(base)
         recv = self.val(base)
         if c is None:
@@ -995,7 +1125,7 @@ class Fn:
         """how to read attribute `attr` given what the class defines: -> function of the receiver term"""
         if isinstance(impl, property):
             fn = self.ctx.require(impl.fget)
-            return lambda r: f"{fn} {r}"
+            return lambda r: self.call_selected(fn, [r])
         if impl is _MISSING or type(impl).__name__ in ("_tuplegetter", "member_descriptor"):
             return lambda r: f'PyRt.getattr {r} "{attr}"'
         if inspect.isfunction(impl):
@@ -1049,7 +1179,21 @@ class Fn:
             if g[0] == "selected":
                 self.ctx.need(g[2])
                 args = self.bind_args(g[2], e.args, kws)
-                return False, g[1] + "".join(" " + a for a in args)
+                return False, self.call_selected(g[1], args)
+            if g[0] == "function" and f.id in EXTERNAL_CALLS and not kws:
+                args = ", ".join(self.val(a) for a in e.args)
+                return False, f'PyRt.env_call {self.use_env()} "{f.id}" [{args}]'
+            if g[0] == "function" and (g[1].__module__ or "").startswith("packaging"):
+                name = self.ctx.require(g[1])             # a helper of the library: translate it as well
+                args = self.bind_args(g[1], e.args, kws)
+                return False, self.call_selected(name, args)
+            if g[0] == "class" and self.ctx.is_tracked(g[1]):
+                init = self.ctx.lookup(g[1], "__init__")
+                if not inspect.isfunction(init):
+                    raise Unsupported(f"constructor of {g[1].__name__} without a Python-level __init__")
+                name = self.ctx.require(init)
+                args = self.bind_args(init, e.args, kws, skip_self=True)
+                return False, self.call_selected(name, [f'(PyVal.obj "{g[1].__name__}" [])'] + args)
             raise Unsupported(f"call of {f.id} ({g[0]})")
         # ---- itertools.X(...) / itertools.chain.from_iterable(...)
         if isinstance(f, ast.Attribute):
@@ -1063,6 +1207,17 @@ class Fn:
                         return False, f"{ITERTOOLS_FN[path]} {fn} {self.val(e.args[1])}"
                     if path == "chain.from_iterable" and len(e.args) == 1 and not kws:
                         return False, f"PyRt.chain_from_iterable {self.val(e.args[0])}"
+                if modname == "re" and path == "match" and len(e.args) == 2 and not kws \
+                        and isinstance(e.args[0], ast.Constant) and isinstance(e.args[0].value, str):
+                    pat = e.args[0].value
+                    if pat not in SUPPORTED_PATTERNS:
+                        raise Unsupported(f"regular expression {pat!r} has no matcher in the run-time")
+                    lit = pat.replace("\\", "\\\\").replace('"', '\\"')
+                    return False, f'PyRt.re_match "{lit}" {self.val(e.args[1])}'
+                full = ".".join(dotted)
+                if full in EXTERNAL_CALLS and not kws:
+                    args = ", ".join(self.val(a) for a in e.args)
+                    return False, f'PyRt.env_call {self.use_env()} "{full}" [{args}]'
                 raise Unsupported(f"call of {modname}.{path}")
             # ---- method of a tracked class
             c = self.static_class(f.value)
@@ -1073,7 +1228,7 @@ class Fn:
                         raise Unsupported(f"method .{f.attr} is not a plain function in a subclass")
                     fn = self.ctx.require(impl)
                     args = self.bind_args(impl, e.args, kws, skip_self=True)
-                    return lambda r: fn + " " + r + "".join(" " + a for a in args)
+                    return lambda r: self.call_selected(fn, [r] + args)
                 return False, self.dispatch(c, f.attr, recv, mk)
             # ---- method call on a value
             if f.attr == "split" and len(e.args) == 2 and not kws:
@@ -1088,7 +1243,25 @@ class Fn:
             raise Unsupported(f"method {f.attr}")
         raise Unsupported("call of a computed function")
 
+    def call_selected(self, lean_name, args):
+        """call of a translated function; the environment is passed on when the callee reads it"""
+        env = ""
+        if lean_name in self.ctx.uses_env:
+            env = " " + self.use_env()
+        return lean_name + env + "".join(" " + a for a in args)
+
     def builtin_call(self, name, args, kws):
+        if name == "range" and not kws and 1 <= len(args) <= 3:
+            return False, f"PyRt.range{len(args)}" + "".join(" " + self.val(a) for a in args)
+        if name == "map" and not kws and len(args) == 2:
+            fn = self.fn_arg(args[0])
+            return False, f"PyRt.map_ {fn} {self.val(args[1])}"
+        if name == "hash" and not kws and len(args) == 1:
+            return False, f"PyRt.hash_ {self.val(args[0])}"
+        if name == "hasattr" and not kws and len(args) == 2 and isinstance(args[0], ast.Name) \
+                and isinstance(args[1], ast.Constant) and (args[0].id, args[1].value) in EXTERNAL_HASATTR:
+            return False, f'PyRt.env_get {self.use_env()} "hasattr({args[0].id},{args[1].value})"'
+
         if name in ("any", "all") and len(args) == 1 and not kws and isinstance(args[0], ast.GeneratorExp) \
                 and len(args[0].generators) == 1 and not args[0].generators[0].ifs:
             g = args[0].generators[0]
@@ -1128,7 +1301,7 @@ class Fn:
             if not inspect.isfunction(impl):
                 raise Unsupported("__str__ is not a plain function in a subclass")
             fn = self.ctx.require(impl)
-            return lambda r: f"{fn} {r}"
+            return lambda r: self.call_selected(fn, [r])
         return self.dispatch(c, "__str__", self.val(a), mk)
 
     def class_names(self, e):
@@ -1272,6 +1445,7 @@ class Ctx:
         self.funcs = []       # (lean name, function object or None, error); grows while dependencies are discovered
         self.deps = {}
         self.current = None
+        self.uses_env = set()      # lean names of functions that take the environment
         self.dispatchers = {}      # name -> Lean definition text
         self.dispatcher_deps = {}
         self.tracked = []
@@ -1366,7 +1540,18 @@ def _arity(pyfunc):
 
 
 def generate(selected=None):
-    ctx = Ctx(selected or SELECTED)
+    uses_env = set()
+    for _ in range(6):                   # which functions need `env` is a fixed point over the call graph
+        ctx = Ctx(selected or SELECTED)
+        ctx.uses_env = set(uses_env)
+        defs, info, arities = _translate_all(ctx)
+        if ctx.uses_env == uses_env:
+            break
+        uses_env = set(ctx.uses_env)
+    return _assemble(ctx, defs, info, arities)
+
+
+def _translate_all(ctx):
     defs = {}
     info = {}
     arities = {}
@@ -1390,12 +1575,17 @@ def generate(selected=None):
                 n = 1
                 arities[lean_name] = n
             params = " ".join(f"_a{i}" for i in range(n))
+            env = "(_env : PyRt.Env) " if lean_name in ctx.uses_env else ""
             text = (f"/-- NOT TRANSLATED: {err} -/\n"
-                    f"def {lean_name}" + (f" ({params} : PyVal)" if n else "") + ' : M PyVal := throw "PySrcUnsupported"')
+                    f"def {lean_name} {env}" + (f"({params} : PyVal) " if n else "") + ': M PyVal := throw "PySrcUnsupported"')
             info[lean_name] = {"supported": False, "why": err}
         else:
             info[lean_name] = {"supported": True}
         defs[lean_name] = text
+    return defs, info, arities
+
+
+def _assemble(ctx, defs, info, arities):
     # order by dependencies (calls between selected functions); recursion is not supported
     order, state = [], {}
 
@@ -1432,9 +1622,10 @@ def generate(selected=None):
     rows = []
     for n in order:
         k = arities[n]
-        pats = ", ".join(f"a{i}" for i in range(k))
-        call = n + "".join(f" a{i}" for i in range(k))
-        rows.append(f'  ("{n}", {k}, fun args => match args with | [{pats}] => {call} | _ => throw "PySrcArity")')
+        call = n + (" (PyRt.envOf e)" if n in ctx.uses_env else "") + "".join(f" a{i}" for i in range(k))
+        pats = ", ".join((["e"] if n in ctx.uses_env else []) + [f"a{i}" for i in range(k)])
+        kk = k + (1 if n in ctx.uses_env else 0)
+        rows.append(f'  ("{n}", {kk}, fun args => match args with | [{pats}] => {call} | _ => throw "PySrcArity")')
     out.append("  [" + ",\n  ".join(r.strip() for r in rows) + "]")
     out.append("")
     out.append("end Gen.PySrc")
@@ -1446,6 +1637,7 @@ def _pysrc():
     src, info = generate()
     bad = {k: v["why"] for k, v in info.items() if not v["supported"]}
     meta = {"functions": len(info), "translated": sum(1 for v in info.values() if v["supported"])}
+    meta["names"] = sorted(info)
     if bad:
         meta["untranslated"] = bad
     return src, meta
